@@ -39,7 +39,7 @@ def filtered(keep, val, outn='*on', out='o'):
 def make(tier):
     P = Plan('C16', level='proof', design_ref='DESIGN.md section 5 C16')
     P.meta += ['the algorithms are templates over the range type; they are instantiated on a fixed-capacity container with symbolic size 0..3 and symbolic elements, with uninterpreted functions/predicates: every loop is bounded by the capacity, the contracts are the obvious loop written out per size']
-    P.not_decided += ['std::vector / std::list / std::deque / std::set / std::map instantiations (heap and red-black-tree code)', 'split_string / join_strings (std::string heap)', 'map_concat, map_iteration, sequence_iteration, generate_n, equal_range, find_by_opt, container::join / get_or_insert / key_set / map_values / set_* (not built)']
+    P.not_decided += ['std::vector / std::list / std::deque / std::set / std::map instantiations (heap and red-black-tree code)', 'join_strings on std::string (heap): checked on a fixed-capacity string type instead', 'split_string and the split/join round trip (result in a std::vector: did not close, DESIGN.md 10.6)', 'map_iteration, sequence_iteration, container::get_or_insert / key_set / map_values / set_* (not built)']
     C = {}
     st = lambda k: 'init' if k == 0 else F2(A[k - 1], st(k - 1))
     C['vf_fold'] = ([PRE], G, ['__CPROVER_return_value == %s' % by_n(st), 'c_f2 == n', ' && '.join('VF_IMP(%d < n, l_f2e[%d] == a%d)' % (k, k, k) for k in range(3))], 'fold: left fold over all elements in order')
@@ -69,6 +69,20 @@ def make(tier):
     uniq = lambda n: ['(a%d == x%s)' % (k, ''.join(' && a%d != x' % j for j in range(n) if j != k)) for k in range(n)]
     C['vf_binary_search'] = ([PRE, '(n < 2 || (i32)a0 <= (i32)a1) && (n < 3 || (i32)a1 <= (i32)a2)'], G,
                              ['(i64)__CPROVER_return_value == %s' % by_n(lambda n: '(' + ''.join('%s ? (i64)%d : ' % (u, k) for k, u in enumerate(uniq(n))) + '(i64)-1)' if n else '(i64)-1')], 'binary_search on a sorted range: the element iff exactly one element is equivalent to the value (as documented)')
+    SORTED = '(n < 2 || (i32)a0 <= (i32)a1) && (n < 3 || (i32)a1 <= (i32)a2)'
+    cntc = lambda op: ' + '.join('((%d < n && (i32)a%d %s (i32)x) ? 1 : 0)' % (k, k, op) for k in range(3))
+    C['vf_equal_range'] = ([PRE, SORTED, '__CPROVER_is_fresh(lo, 8) && __CPROVER_is_fresh(hi, 8)'], G + ', *lo, *hi', ['*lo == %s' % cntc('<'), '*hi == %s' % cntc('<=')], 'equal_range on a sorted range: [number of smaller elements, number of not greater elements)')
+    fpi = lambda n: first_idx(lambda k: Pd(A[k]), n)
+    C['vf_find_by_opt'] = ([PRE, '__CPROVER_is_fresh(val, 4)'], G + ', *val', ['__CPROVER_return_value == (%s)' % ' || '.join('(%d < n && %s)' % (k, Pd(A[k])) for k in range(3)),
+                            by_n(lambda n: ' && '.join('VF_IMP(%s == %d, *val == %s)' % (fpi(n), k, Mp(A[k])) for k in range(n)) or '1'),
+                            'c_pred == %s' % by_n(lambda n: '(%s < %d ? %s + 1 : %d)' % (fpi(n), n, fpi(n), n) if n else '0')], 'find_by_opt: the result of the first element whose function result is set; stops there')
+    C['vf_generate_n'] = (['cnt <= 3 && c_map == 0', FRO], G + ', ' + OUTS, ['*on == cnt && c_map == cnt', ' && '.join('VF_IMP(%d < cnt, o[%d] == %s)' % (k, k, Mp('7')) for k in range(3))], 'generate_n: the function is invoked exactly n times, results in order')
+    P2 = lambda x, y: '(%s & 1)' % F2(x, y)
+    k1 = '!' + P2('a0', 'a1')
+    k2 = '!' + P2('((%s) ? a1 : a0)' % k1, 'a2')
+    C['vf_unique_if'] = ([PRE, FRO], G + ', ' + OUTS, filtered(lambda k: ['1', k1, k2][k], lambda k: 'a%d' % k), 'unique_if: an element is dropped iff the predicate holds for (last kept element, element)')
+    C['vf_at_optional'] = ([PRE], G, ['(i64)__CPROVER_return_value == (idx < n ? (i64)idx : (i64)-1)'], 'at_optional: the element at the index iff the index is in range')
+    C['vf_map_concat_c'] = ([PRE, FRO], G + ', ' + OUTS, filtered(lambda k: Pd(A[k]), lambda k: Mp(A[k])), 'map_concat: the concatenation of the per-element results, in order')
     spec = ''
     for f, (req, asg, ens, what) in C.items():
         spec += 'function %s\n' % f + ''.join('  __CPROVER_requires(%s)\n' % r for r in req) + '  __CPROVER_assigns(%s)\n' % asg + ''.join('  __CPROVER_ensures(%s)\n' % e for e in ens)
@@ -97,4 +111,47 @@ def make(tier):
     u2 = P.unit('arr', 'arr.cpp', specs=['arr.spec'], harness=['arr_h.c'], pre=['arr_ghost.h'], inline=True)
     for f, (req, ens, what) in D.items():
         u2.contract(f, cls='P', backends=['sat', 'cvc5'], what=what, native=False, timeout=600)
+    # ---- join_strings / split_string on a fixed-capacity string type (str.cpp) ----
+    PC = lambda k, j: 'p%d%d' % (k, j)
+    jens = []
+    for n in range(4):
+        for lens in itertools.product(range(3), repeat=n):
+            for ld in range(3):
+                exp = []
+                for k in range(n):
+                    exp += [PC(k, j) for j in range(lens[k])]
+                    if k + 1 < n:
+                        exp += ['d%d' % j for j in range(ld)]
+                cond = ' && '.join(['n == %d' % n] + ['l%d == %d' % (k, lens[k]) for k in range(n)] + ['ld == %d' % ld])
+                jens.append('VF_IMP(%s, %s)' % (cond, ' && '.join(['*on == %d' % len(exp)] + ['o[%d] == %s' % (i, e) for i, e in enumerate(exp)])))
+    S = {}
+    S['vf_join_strings'] = (['n <= 3 && l0 <= 2 && l1 <= 2 && l2 <= 2 && ld <= 2', '__CPROVER_is_fresh(on, 8) && __CPROVER_is_fresh(o, 12)'], '*on, __CPROVER_object_whole(o)', jens,
+                            'join_strings: p1 + d + p2 + d + p3 for every number (0..3) and length (0..2) of parts and every delimiter length (0..2) - in particular empty parts at the front', True)
+    sens = []
+    for n in range(4):
+        for mask in itertools.product((0, 1), repeat=n):
+            pieces, cur = [], []
+            for k in range(n):
+                if mask[k]:
+                    pieces.append(cur); cur = []
+                else:
+                    cur.append('c%d' % k)
+            pieces.append(cur)
+            cond = ' && '.join(['n == %d' % n] + [('c%d == delim' if mask[k] else 'c%d != delim') % k for k in range(n)])
+            res = ['*cnt == %d' % len(pieces)] + ['lens[%d] == %d' % (i, len(pc)) for i, pc in enumerate(pieces)] + ['o[%d] == %s' % (i * 3 + j, ch) for i, pc in enumerate(pieces) for j, ch in enumerate(pc)]
+            sens.append('VF_IMP(%s, %s)' % (cond, ' && '.join(res)))
+    S['vf_split_string'] = (['n <= 3', '__CPROVER_is_fresh(cnt, 8) && __CPROVER_is_fresh(lens, 32) && __CPROVER_is_fresh(o, 12)'], '*cnt, __CPROVER_object_whole(lens), __CPROVER_object_whole(o)', sens,
+                            'split_string: the pieces between the delimiter positions, in order, m + 1 pieces for m delimiters (result in a real std::vector)', False)
+    S['vf_split_join'] = (['n <= 3', '__CPROVER_is_fresh(on, 8) && __CPROVER_is_fresh(o, 4)'], '*on, __CPROVER_object_whole(o)', ['*on == n && VF_IMP(n > 0, o[0] == c0) && VF_IMP(n > 1, o[1] == c1) && VF_IMP(n > 2, o[2] == c2)'],
+                          'split_string is inverted by join_strings (strings of up to 3 characters, every delimiter)', False)
+    spec3 = ''
+    for f, (req, asg, ens, what, quick) in S.items():
+        spec3 += 'function %s\n' % f + ''.join('  __CPROVER_requires(%s)\n' % r for r in req) + '  __CPROVER_assigns(%s)\n' % asg + ''.join('  __CPROVER_ensures(%s)\n' % e for e in ens)
+    P.generated['str.spec'] = spec3
+    u3 = P.unit('str', 'str.cpp', specs=['str.spec'], inline=True)
+    for f, (req, asg, ens, what, quick) in S.items():
+        if quick:
+            u3.contract(f, cls='W', unwind=14, bound='fixed-capacity string type (12 characters): at most 3 parts of length <= 2, delimiter of length <= 2; loops bounded by the capacity, unwinding assertions on', backends=['sat', 'cvc5'], what=what, native=False, timeout=900)
+        # split_string / split_join: the result lives in a real std::vector; measured: 12 GB / 15 min under --dfcc and 24 GB without (strings of <= 3 characters,
+        # capacity-4 string type, unwind 6) - not registered as jobs, listed as not decided (DESIGN.md 10.6). The contracts stay in str.spec for the record.
     return P
